@@ -44,9 +44,39 @@ CASES = {
 }
 
 
+SPELL_RNG = [None]
+
+
+def spell(v):
+    """one of the ways a user (or str() / repr() / '%e' of Python and NumPy) writes this number: plain decimal,
+    exponent notation with a signed exponent, explicit plus sign, no leading zero, trailing dot, ...; only
+    spellings that Python's float() maps back to exactly this value are used"""
+    rng = SPELL_RNG[0]
+    base = repr(v) if isinstance(v, float) else str(v)
+    if rng is None:
+        return base
+    fv = float(v)
+    cands = [base, base, "%e" % fv, "%E" % fv, "%.17g" % fv, "+" + base, "%.3e" % fv, "%.1e" % fv, "%r" % (fv * 1000) + "e-3", "%r" % (fv / 1000) + "e+3",
+             "%r" % (fv * 100) + "E-02", "0" + base if not base.startswith(("-", "+")) else base]
+    if base.startswith("0."):
+        cands.append(base[1:])
+    if fv == int(fv) and abs(fv) < 1e15:
+        cands += [str(int(fv)) + ".", str(int(fv)) + ".0", str(int(fv)) + "e0", str(int(fv)) + "e+0"]
+    def val(c):
+        try:
+            return float(c)
+        except ValueError:
+            return None
+    good = [c for c in cands if val(c) == fv]
+    return good[int(rng.integers(0, len(good)))]
+
+
 def fmt_list(vals, form):
-    toks = [repr(v) if isinstance(v, float) else str(v) for v in vals]
-    return ",".join(toks) if form == "comma" else "[" + " ".join(toks) + "]"
+    toks = [spell(v) for v in vals]
+    if form == "comma":
+        return ",".join(toks)
+    sep = " " if SPELL_RNG[0] is None else " " * int(SPELL_RNG[0].integers(1, 3))
+    return "[" + sep.join(toks) + "]"
 
 
 @contextlib.contextmanager
@@ -225,10 +255,14 @@ def run(tier, seed):
     rng = ctx.rng
     for cmd, cases in CASES.items():
         for seqargs, opts in cases:
-            combos = [(f, m) for f in ("comma", "bracket") for m in ("return", "json")]
+            combos = [(f, m, sp) for f in ("comma", "bracket") for m in ("return", "json") for sp in (False, True)]
             if tier == "quick":
-                combos = [combos[int(i)] for i in rng.permutation(4)[:2]]
-            for form, mode in combos:
+                combos = [combos[int(i)] for i in rng.permutation(8)[:3]]
+                if not any(c[2] for c in combos):
+                    combos[0] = (combos[0][0], combos[0][1], True)
+            for form, mode, sp in combos:
+                SPELL_RNG[0] = rng if sp else None        # plain repr() spelling, or a varied one
+                ctx.count("spelling:" + ("varied" if sp else "plain"))
                 so = "Wx" if cmd in ("fpsearch", "angles") else str(rng.choice(["Wx", "Wz"]))
                 one(ctx, M, cmd, seqargs if isinstance(seqargs, list) else None, opts, form, so, mode)
     # unknown commands: help text, no phases
